@@ -567,3 +567,46 @@ def replay_fake_abi(verif):
 
 
 STATIC["c13_fake_abi_matches"] = dict(props=["C13", "C08"], fn=scan_fake_abi, obligation="C13.fake.abi", replay_static=replay_fake_abi)
+
+
+# ------------------------------------------------------------------------------------------------
+# type-level link between the recorded signature and the real function type (rustc must reject mis-declared uses)
+import gen_typelink  # noqa: E402
+
+
+def _typelink_files(repo, skip=()):
+    return {"verif_typelink": dict(parent=INJ, dest="interface/injector/verif_typelink.rs", modline="mod verif_typelink;", text=gen_typelink.generate(), gate=False)}
+
+
+GENERATORS["typelink"] = _typelink_files
+
+
+def typelink_precheck(crate, env):
+    res = dict(obligations={}, failures=[], undecided=[], skip=set())
+    env = dict(env)
+    base_td = os.path.join(os.path.dirname(crate), "td", "typelink")
+    # the crate with no case enabled must compile, otherwise nothing can be concluded from a rejection
+    env0 = dict(env, CARGO_TARGET_DIR=base_td)
+    env0.pop("RUSTFLAGS", None)
+    p0 = subprocess.run(["cargo", "check", "--offline", "--lib", "-q"], cwd=crate, env=env0, stdout=subprocess.PIPE, stderr=subprocess.STDOUT, text=True)
+    if p0.returncode != 0:
+        res["undecided"].append("the extracted crate does not compile even without any mis-declared use: " + p0.stdout[-300:])
+        return res
+    for name, desc, stmt in gen_typelink.CASES:
+        e = dict(env0, RUSTFLAGS="--cfg tl_%s" % name)
+        p = subprocess.run(["cargo", "check", "--offline", "--lib", "-q"], cwd=crate, env=e, stdout=subprocess.PIPE, stderr=subprocess.STDOUT, text=True)
+        oid = "C09.typelink.%s" % name
+        if p.returncode != 0 and "verif_typelink.rs" in p.stdout:
+            res["obligations"][oid] = "SUCCESS"
+        elif p.returncode != 0:
+            res["undecided"].append("%s: rejected, but not at the mis-declared use: %s" % (oid, p.stdout[-200:]))
+        else:
+            res["obligations"][oid] = "FAILURE"
+            res["failures"].append(dict(obligation=oid, desc="rustc ACCEPTS a mis-declared use (%s): `%s` — the signature this form records is no longer tied to the real type, so the text-based gates can be handed a wrong signature" % (desc, stmt), loc="src/interface/macros.rs", kind="obligation"))
+    return res
+
+
+PRECHECKS["typelink"] = typelink_precheck
+H("typelink_anchor", module="verif_sigs.rs", props=["C09", "C10", "C14"], generator="typelink", precheck="typelink", fq="interface::injector::verif_sigs::c09_sig_unchecked", fns=MAC_FNS, covers=["COVER:end"],
+  shared={("C09.typelink.%s" % n): ["C10", "C14"] for n, _d, _s in gen_typelink.CASES},
+  bounded="nine mis-declared uses, one per type-carrying macro form; rustc is the checker")
